@@ -1,4 +1,5 @@
 import RlboxModel.IntConv
+import RlboxModel.Generated
 /-!
 # C06 — Integers crossing the ABI boundary keep their value or the operation aborts
 Property theorems only.
@@ -90,5 +91,55 @@ example : abiA.wf ∧ abiB.wf ∧ abiC.wf := by simp [Abi.wf, abiA, abiB, abiC]
 /-- non-vacuity of `C06_abi_pairs`: `long` 2^31 does not fit ABI A's 32-bit `long` -/
 example : toSandbox abiA .long 2147483648 = none ∧ toSandbox abiA .long 2147483647 = some 2147483647 := by
   decide
+
+
+/-! ## Tie to the source by translation: the `if constexpr` chain of rlbox_conversion.hpp is parsed on every
+run into `Generated.convChain`; `convertFund` IS its meaning, so every theorem above is about the chain the
+source contains now (a merged, reordered or dropped branch or check breaks `chainChecks_eq`). -/
+
+open Rlbox.ConvChain in
+/-- which dynamic checks guard the final cast, per pair of types (what the model's `convertFund` encodes) -/
+def expectedChecks (to fr : IntTy) : List Chk :=
+  if to.signed = fr.signed ∧ to.bytes ≥ fr.bytes then []
+  else if ¬ to.signed ∧ ¬ fr.signed then [.leToMax]
+  else if to.signed ∧ fr.signed then [.geToMin, .leToMax]
+  else if ¬ to.signed ∧ fr.signed then (if to.bytes < fr.bytes then [.geZero, .leToMaxAsFrom] else [.geZero])
+  else (if to.bytes ≤ fr.bytes then [.leToMaxAsFrom] else [])
+
+open Rlbox.ConvChain in
+theorem chainChecks_eq (to fr : IntTy) : chainChecks to fr Generated.convChain = expectedChecks to fr := by
+  obtain ⟨ts, tb, tB⟩ := to
+  obtain ⟨fs, fb, fB⟩ := fr
+  unfold expectedChecks
+  cases ts <;> cases fs <;>
+    simp [Generated.convChain, chainChecks, subChecks, Atom.holds] <;>
+    (try (by_cases h1 : fb ≤ tb <;> simp [h1])) <;>
+    (try (by_cases h2 : tb < fb <;> simp [h2])) <;>
+    (try (by_cases h3 : tb ≤ fb <;> simp [h3]))
+
+open Rlbox.ConvChain in
+/-- the model function about which C06 is proved is the meaning of the chain TRANSLATED from the source -/
+theorem C06_model_is_translated_source (to fr : IntTy) (v : Int) :
+    convertFund to fr v = evalChain Generated.convChain to fr v := by
+  unfold evalChain
+  rw [chainChecks_eq]
+  unfold convertFund expectedChecks
+  split
+  · simp [checksPass]
+  · split
+    · simp [checksPass, Chk.holds]
+    · split
+      · simp [checksPass, Chk.holds]
+      · split
+        · split <;> simp [checksPass, Chk.holds]
+        · split <;> simp [checksPass, Chk.holds]
+
+open Rlbox.ConvChain in
+/-- C06 stated directly about the translated chain -/
+theorem C06_translated_chain_faithful (abi : Abi) (habi : abi.wf) (t : BaseTy) (v : Int) (hv : t.app.inRange v) :
+    (evalChain Generated.convChain (t.guest abi) t.app v = some v ∧ (t.guest abi).inRange v) ∨
+    (evalChain Generated.convChain (t.guest abi) t.app v = none ∧ ¬ (t.guest abi).inRange v) := by
+  rw [← C06_model_is_translated_source]
+  exact (C06_abi_pairs abi habi t v).1 hv
 
 end Rlbox.C06
